@@ -350,7 +350,7 @@ def sat_sub(eng, st, a, b):
 def run_c05(ctx, chk):
     chk.assume('A-DIM', 'A-ARG', 'A-PUB', 'A-TOOL')
     from .rules_c03 import param_fidelity
-    param_fidelity(ctx, chk, fsm=True, prop='C05', finals='ABCDEFGHfdae`')      # through the parser the numbers arrive as typed (R-CAP)
+    param_fidelity(ctx, chk, fsm=True, prop='C05', finals='ABCDEFGHfdae`', basic='\x08\x0d')      # through the parser the numbers arrive as typed (R-CAP)
     sr = ctx.screen_run()
     eng = sr['engine']
     prog = ctx.prog
@@ -786,7 +786,7 @@ def erase_region_ok(eng, st, meth, hv, row, col, x0, y0, cols, a0):
 def run_c06(ctx, chk):
     chk.assume('A-DIM', 'A-ARG', 'A-PUB', 'A-TOOL')
     from .rules_c03 import param_fidelity
-    param_fidelity(ctx, chk, fsm=True, prop='C06', finals='LMr')      # through the parser the numbers arrive as typed (R-CAP)
+    param_fidelity(ctx, chk, fsm=True, prop='C06', finals='LMr', esc='DEM', basic='\x0a\x0b\x0c')      # through the parser the numbers arrive as typed (R-CAP)
     sr = ctx.screen_run()
     eng = sr['engine']
     prog = ctx.prog
